@@ -32,6 +32,8 @@ def run_mv(c, m, stim, strip, reuse):
 
 
 def eval_case(case):
+    if case.get('kind') == 'allprims':
+        return allprims_case(case['m'])
     c = pickle.loads(base64.b64decode(case['circuit']))
     m = case['m']
     stim = np.array(case['stim'], dtype=np.uint8)
@@ -87,8 +89,61 @@ def eval_case(case):
     return True, None, None
 
 
+PRIM_AR = {'BUF1': 1, 'INV1': 1, 'MUX21': 3}
+
+
+def prim_arity(name):
+    if name in PRIM_AR: return PRIM_AR[name]
+    if name[-3:] in ('211',): return 4
+    if name[-2:] == '21': return 3
+    if name[-2:] == '22': return 4
+    return int(name[-1])
+
+
+def allprims_case(m):
+    """every primitive of sim.names on ALL operand tuples of the logic, in one bit-parallel run of the real LogicSim,
+    against the Lean table of the documented composition (`comptab`)"""
+    from kyupy import bench, logic, sim
+    from kyupy.logic_sim import LogicSim
+    names = sorted(str(v) for v in sim.names.values())
+    src = 'input(i0,i1,i2,i3) output(' + ','.join(f'o{k}' for k in range(len(names))) + ') ' + \
+          ' '.join(f"o{k}={p}({','.join(f'i{j}' for j in range(prim_arity(p)))})" for k, p in enumerate(names))
+    c = bench.parse(src)
+    dom = 4 if m == 4 else 8
+    n = dom ** 4
+    idx = np.arange(n)
+    combos = np.array([(idx // (dom ** j)) % dom for j in range(4)], dtype=np.uint8)
+    with common.quiet():
+        ls = LogicSim(c, n, m=m)
+    mva = np.full((ls.s_len, n), 2, dtype=np.uint8); mva[:4] = combos
+    ls.s[0] = logic.mv_to_bp(mva); ls.s_to_c(); ls.c_prop(); ls.c_to_s()
+    r = logic.bp_to_mv(ls.s[1])[4:, :n]
+    tabs = common.run_driver([f'comptab {p}' for p in names])
+    for k, p in enumerate(names):
+        if tabs[k] == 'none': return False, {'primitive': p, 'spec': 'unknown primitive name'}, None
+        t = int(tabs[k])
+        for col in range(n):
+            a = [int(combos[j, col]) for j in range(4)]
+            ar = prim_arity(p)
+            row = sum((a[j] if j < ar else 0) * (8 ** j) for j in range(4))      # unconnected pins read constant 0
+            exp = (t >> (3 * row)) & 7
+            if m == 4: exp &= 3
+            got = int(r[k, col]) & (3 if m == 4 else 7)
+            if got != exp:
+                return False, {'primitive': p, 'm': m, 'operands': a[:ar], 'result': got}, {'result': exp}
+    return True, None, None
+
+
 def oracle(ck, n, thorough=False):
     rng = ck.rng
+    for m in (4, 8):     # complete per-primitive sweep first
+        try:
+            ok, obs, exp = allprims_case(m)
+        except Exception as ex:
+            ok, obs, exp = False, {'raised': f'{type(ex).__name__}: {ex}'[:300]}, None
+        ck.case(key=('allprims', m), sample={'kind': 'allprims', 'm': m}, tag=[f'allprims-m{m}'])
+        if not ok:
+            ck.violation('logic-prim', f'LogicSim(m={m}): a primitive differs from its documented composition', {'kind': 'allprims', 'm': m}, obs, exp)
     for it in range(n):
         c = circ.rand_circuit(rng, n_gates=rng.randint(1, 25 if not thorough else 60))
         d = circ.describe(c)
